@@ -21,7 +21,11 @@ use std::sync::mpsc;
 use std::sync::{Arc, Mutex};
 use std::time::Duration;
 
-const WORDS: &[&str] = &["foo", "bar", "foobar", "baz", "a/b", "Foo Bar", "xyz", "fo", "b", "ab$", "f-o-o", "oof", "barfoo", "BAR", "b a r", "zzz"];
+const WORDS: &[&str] = &[
+    "foo", "bar", "foobar", "baz", "a/b", "Foo Bar", "xyz", "fo", "b", "ab$", "f-o-o", "oof", "barfoo", "BAR", "b a r", "zzz",
+    // U+023A normalizes to 'A' but lower-cases to U+2C65, which normalization leaves alone; 'é' is normalized to 'e'
+    "\u{23A}\u{e9}", "\u{2C65}\u{e9}", "caf\u{e9}",
+];
 
 fn col_text(v: u32, j: usize) -> String {
     // one item in six has an empty column (never the only column's... also allowed: an empty haystack is a legal item)
@@ -343,7 +347,7 @@ fn run_history(rng: &mut Rng, mode: &str, _k: usize) -> String {
     h.pat_debug.push(format!("{:?}", (0..cols).map(|c| h.nucleo.pattern.column_pattern(c).atoms.clone()).collect::<Vec<_>>()));
     eprintln!("HIST-BEGIN pool={pool} cols={cols}");
     let nops = 6 + rng.below(if mode == "long" { 40 } else { 18 }) as usize;
-    let typing = ["f", "o", "o", "b", "a", "r", " ", "!", "^", "$", "\\", "B", "'", "z"];
+    let typing = ["f", "o", "o", "b", "a", "r", " ", "!", "^", "$", "\\", "B", "'", "z", "\u{e9}", "\u{2C65}"];
     // a quarter of the histories start with a scripted prefix aimed at the delicate paths of the worker:
     // a run cancelled in the middle of a scoring pass followed by an appended edit (Update), a restart or
     // a rescore; the random tail then continues from there
@@ -437,6 +441,20 @@ fn run_history(rng: &mut Rng, mode: &str, _k: usize) -> String {
         if with_pat {
             script.push_back(Sc::Text(0, ["ba", "z", "o", "r"][rng.below(4) as usize].to_string(), false));
         }
+        script.push_back(Sc::Tick(0, 0));
+    }
+    // a fourth one: appended text that switches the last atom's smart normalization (or smart case) off: a populated snapshot
+    // for the first text, then the appended edit, each followed by a completing tick; items include characters whose
+    // normalization and case folding disagree (WORDS)
+    else if rng.chance(1, 4) {
+        script.push_back(Sc::Op(0));
+        for _ in 0..(8 + rng.below(4)) {
+            script.push_back(Sc::Op(4));
+        }
+        let (first, more) = [("\u{2C65}", "\u{e9}"), ("caf", "\u{e9}"), ("ba", "R"), ("\u{2C65}", "\u{c9}")][rng.below(4) as usize];
+        script.push_back(Sc::Text(0, first.to_string(), false));
+        script.push_back(Sc::Tick(0, 0));
+        script.push_back(Sc::Text(0, format!("{first}{more}"), true));
         script.push_back(Sc::Tick(0, 0));
     }
     let mut force_text: Option<(usize, String, bool)> = None;
@@ -598,7 +616,14 @@ fn run_history(rng: &mut Rng, mode: &str, _k: usize) -> String {
                     };
                     format!("{}.{}.{:x}", k, a.negative as u8, a.needle_text().chars().next_back().map(|c| c as u32).unwrap_or(0))
                 }).unwrap_or("none".to_string());
+                // does the atom still normalize haystack characters (smart normalization: no character of its text is one
+                // that normalization would change)?  before the edit: the last atom; after it: the atom in the same place
+                let keeps = |a: &nucleo::pattern::Atom| a.needle_text().chars().all(|ch| nucleo_matcher::chars::normalize(ch) == ch);
+                let old_len = h.nucleo.pattern.column_pattern(c).atoms.len();
+                let old_keeps = h.nucleo.pattern.column_pattern(c).atoms.last().map(|a| keeps(a)).unwrap_or(true);
                 h.nucleo.pattern.reparse(c, &new, CaseMatching::Smart, Normalization::Smart, append);
+                let new_keeps = if old_len == 0 { true } else { h.nucleo.pattern.column_pattern(c).atoms.get(old_len - 1).map(|a| keeps(a)).unwrap_or(true) };
+                let last = if last == "none" { last } else { format!("{last}.{}.{}", old_keeps as u8, new_keeps as u8) };
                 let status_after = nucleo::verif::pattern_status(&h.nucleo.pattern);
                 h.cur_text[c] = new.clone();
                 h.pat_texts.push(h.cur_text.clone());
